@@ -729,9 +729,19 @@ func main() {
 		}
 	}
 	sort.Strings(vnames)
+	// the visitors of the alternatives of `value`: each must select its Operation type in the transcribed form
+	// `recv.currentOperation = &T{}`; one that does it in another way (through a helper, a table, a constructor) is
+	// reported as `unrecognised` and claims nothing (the correspondence alone carries it, budgets x4) - never omitted
+	litVisitors := map[string]bool{"VisitBoolean": true, "VisitNull": true, "VisitVersion": true, "VisitString": true, "VisitDouble": true, "VisitLong": true,
+		"VisitListOfInts": true, "VisitListOfDoubles": true, "VisitListOfStrings": true}
 	for _, k := range vnames {
-		for _, mm := range curRe.FindAllStringSubmatch(bodies[k], -1) {
-			f.LitOps = append(f.LitOps, [2]string{strings.TrimPrefix(k, "JsonQueryVisitorImpl."), mm[1]})
+		name := strings.TrimPrefix(k, "JsonQueryVisitorImpl.")
+		ms := curRe.FindAllStringSubmatch(bodies[k], -1)
+		for _, mm := range ms {
+			f.LitOps = append(f.LitOps, [2]string{name, mm[1]})
+		}
+		if len(ms) == 0 && litVisitors[name] {
+			f.LitOps = append(f.LitOps, [2]string{name, "unrecognised"})
 		}
 	}
 
@@ -821,19 +831,43 @@ func main() {
 	refl := map[string]bool{}
 	syncu := map[string]bool{}
 	inventory := func(rel string, root ast.Node, observers bool) {
+		// a type that mentions a type parameter of the enclosing generic function is not ONE observer: what is observed
+		// depends on the instantiations. It is recorded as such and claims nothing (the quotient then rests on the
+		// correspondence for the values that function sees; budgets x4)
+		tparams := map[string]bool{}
+		if fd, ok := root.(*ast.FuncDecl); ok && fd.Type.TypeParams != nil {
+			for _, fl := range fd.Type.TypeParams.List {
+				for _, nm := range fl.Names {
+					tparams[nm.Name] = true
+				}
+			}
+		}
+		obsName := func(e ast.Expr) string {
+			generic := false
+			ast.Inspect(e, func(n ast.Node) bool {
+				if id, ok := n.(*ast.Ident); ok && tparams[id.Name] {
+					generic = true
+				}
+				return true
+			})
+			if generic {
+				return "<type parameter>"
+			}
+			return render(e)
+		}
 		ast.Inspect(root, func(n ast.Node) bool {
 			switch x := n.(type) {
 			case *ast.GoStmt:
 				f.GoStmts++
 			case *ast.TypeAssertExpr:
 				if x.Type != nil && observers {
-					obs[render(x.Type)] = true
+					obs[obsName(x.Type)] = true
 				}
 			case *ast.TypeSwitchStmt:
 				if observers {
 					for _, c := range x.Body.List {
 						for _, e := range c.(*ast.CaseClause).List {
-							obs[render(e)] = true
+							obs[obsName(e)] = true
 						}
 					}
 				}
